@@ -24,7 +24,7 @@ ASSUMPTIONS = [
 ]
 MONITORS = ("status answers vs os.walk listing; FaultyFS counters prove both lookup strategies ran; wrappers on ObjectDBIndex.update/clear "
             "log what was indexed; index content vs upload log + present directory objects after every step")
-REQUIRED_COUNTERS = ["status_queries", "strategy/per-object-exists", "strategy/traverse", "compare_status_calls", "expanded_queries",
+REQUIRED_COUNTERS = ["two_handle_histories", "status_queries", "strategy/per-object-exists", "strategy/traverse", "compare_status_calls", "expanded_queries",
                      "histories", "history_steps", "index_checks", "index_updates_seen", "index_clears_seen", "external_deletions",
                      "failed_transfer_steps", "indexed_dir_exists_checked", "store/local", "store/remote", "store/base"]
 
@@ -159,7 +159,12 @@ def run_shard(ctx):
     def history(case=0, rng=None):
         d = ctx.fresh("i")
         sc = Scenario(ctx, rng, d, dest_kind="remote", ntrees=rng.choice([1, 2, 3]))
-        index = ObjectDBIndex(os.path.join(d, "idx"), "dest")
+        # one on-disk index, reached through one or two handles (as separate commands of one repository would)
+        handles = [ObjectDBIndex(os.path.join(d, "idx"), "dest")]
+        if rng.random() < 0.5:
+            handles.append(ObjectDBIndex(os.path.join(d, "idx"), "dest"))
+            res.count("two_handle_histories")
+        index = handles[0]
         ids, shallow, denoted = sc.closed_request(expanded=False)
         delivered = set()
         log = []
@@ -183,9 +188,16 @@ def run_shard(ctx):
                 return orig(self)
             return w
 
-        def check_index(step):
+        def check_index(step, validated=False):
             res.count("index_checks")
-            held = set(index)
+            held = set(handles[0])
+            if validated:
+                # a query that named a directory validates every indexed directory: a stale index is cleared
+                objs0, _t0, _s0 = list_store(sc.dest_root)
+                stale = sorted(o for o in handles[0].dir_hashes() if o not in objs0)
+                if stale:
+                    res.violation(f"stale-index-not-cleared/after-{step}", f"index still holds directory {stale[:2]} which is not in the store",
+                                  case=case, detail={"log": log[-10:]})
             objs, _t, _s = list_store(sc.dest_root)
             listed = set()
             for o, p in objs.items():
@@ -205,6 +217,7 @@ def run_shard(ctx):
         with MethodPatch(ObjectDBIndex, "update", upd), MethodPatch(ObjectDBIndex, "clear", clr):
             for _step in range(rng.randrange(4, 13)):
                 res.count("history_steps")
+                index = rng.choice(handles)
                 op = rng.choice(["transfer", "transfer", "failing-transfer", "delete-file", "delete-dir", "status", "compare"])
                 if op in ("transfer", "failing-transfer"):
                     fo = sorted(sc.file_oids() | {t["oid"] for t in sc.trees})
@@ -221,7 +234,7 @@ def run_shard(ctx):
                         r = transfer(sc.src, sc.dest, sub, jobs=rng.choice([1, 4]), dest_index=index, cache_odb=sc.src)
                     delivered.update(os.path.relpath(p, sc.dest_root).replace(os.sep, "") for p in sc.fs.puts(ok=True))
                     log.append((op, len(sub), sorted(S)[:3], len(r.transferred), len(r.failed)))
-                    check_index(op)
+                    check_index(op, validated=any(i.isdir for i in sub))
                 elif op in ("delete-file", "delete-dir"):
                     objs, _t, _s = list_store(sc.dest_root)
                     cands = [o for o in objs if o.endswith(DIR_SUFFIX) == (op == "delete-dir")]
@@ -249,7 +262,7 @@ def run_shard(ctx):
                         if h.value in objs:
                             res.violation("present-object-reported-missing/with-index", f"{h.value} is in the store but reported missing", case=case,
                                           detail={"log": log[-10:]})
-                    check_index("status")
+                    check_index("status", validated=any(i.isdir for i in sub))
                 else:
                     cs = compare_status(sc.src, sc.dest, ids, check_deleted=rng.random() < 0.5, dest_index=index, cache_odb=sc.src)
                     objs, _t, _s = list_store(sc.dest_root)
@@ -258,11 +271,12 @@ def run_shard(ctx):
                         if h.isdir and h.value not in objs:
                             res.violation("directory-reported-existing-but-absent/compare_status", f"{h.value} reported in dest but absent", case=case,
                                           detail={"log": log[-10:]})
-                    check_index("compare_status")
+                    check_index("compare_status", validated=True)
         if interesting:
             res.nontrivial("hist", log)
         res.sample({"history": log[:10]})
-        index.close()
+        for h in handles:
+            h.close()
         env.reset_staging()
         ctx.drop(d)
 
